@@ -76,6 +76,9 @@ func checkTableMap(c *TableMapCase) error {
 //	Mode 0: one table id re-announced with changed column types (same name, same column count)
 //	Mode 1: one table id re-bound to a different table
 //	Mode 2: the mapper reports a wrong column count for one table
+//	Mode 4: the same id and name announced again with ANOTHER column count while the mapper still describes the
+//	        old table: the rows of the new layout must be rejected with an error, not mis-attributed
+//	Mode 5: the same id and name announced again with identical column types but changed metadata only
 //	Mode 3: ALTER TABLE between two transactions: the table comes back under a NEW id with the same name and
 //	        column count but other signedness / column names; the mapper answers with the old definition until
 //	        the DDL transaction has been delivered and with the new one afterwards
@@ -93,7 +96,7 @@ type RebindCase struct {
 func (c *RebindCase) history() *hist.History {
 	h := &hist.History{Cfg: c.Cfg, FirstFile: "bin.000007"}
 	a, b := c.A, c.B
-	if c.Mode == 0 || c.Mode == 1 {
+	if c.Mode == 0 || c.Mode == 1 || c.Mode == 4 || c.Mode == 5 {
 		b.ID = a.ID
 	} else if b.ID == a.ID {
 		b.ID = a.ID + 1
@@ -121,6 +124,33 @@ func (c *RebindCase) history() *hist.History {
 func checkRebind(c *RebindCase) error {
 	h := c.history()
 	e := &E2ECase{H: h}
+	if c.Mode == 4 {
+		l, start, su, err := e.layout()
+		if err != nil {
+			return fmt.Errorf("harness: %v", err)
+		}
+		exp := l.Expected(start, su)
+		ss, err := newSession(h.Tables, 15, start)
+		if err != nil {
+			return fmt.Errorf("harness: %v", err)
+		}
+		defer ss.close()
+		ss.mp.tables[h.Tables[0].DB+"\x00"+h.Tables[0].Name] = &h.Tables[0] // the mapper keeps describing the old table
+		st := ss.run(attempt{l: l})
+		st.drainLib()
+		if st.panicked != "" {
+			return fmt.Errorf("a table map whose column count (%d) disagrees with the mapper's table (%d) must be rejected with an error: %v", len(h.Tables[1].Cols), len(h.Tables[0].Cols), st.streamErr)
+		}
+		if st.streamErr == nil {
+			return fmt.Errorf("the table was announced again with %d columns while the mapper describes %d, rows followed, and Stream returned nil", len(h.Tables[1].Cols), len(h.Tables[0].Cols))
+		}
+		// nothing of the transaction that carries the new layout may be delivered
+		bad := len(exp) - 1
+		if len(st.got) > bad {
+			return fmt.Errorf("%d transactions delivered; transaction %d carries rows in a layout the mapper does not describe", len(st.got), bad)
+		}
+		return compareTxs(st.got, exp[:len(st.got)], true)
+	}
 	if c.Mode == 3 {
 		l, start, su, err := e.layout()
 		if err != nil {
@@ -295,6 +325,23 @@ func drawRebind(rt *rapid.T, mode int) *RebindCase {
 		for i := range c.B.Cols {
 			c.B.Cols[i].Name = fmt.Sprintf("other%d", i)
 		}
+	case 4: // same id, same name, other column count
+		c.B = wideTable(rt, 8, copt, c.Cfg.TableIDBytes)
+		c.B.DB, c.B.Name = "d", "t1"
+		for len(c.B.Cols) == len(c.A.Cols) {
+			c.B.Cols = append(c.B.Cols, gen.Column(rt, copt))
+		}
+		for i := range c.B.Cols {
+			c.B.Cols[i].Name = fmt.Sprintf("n%d", i)
+		}
+	case 5: // same id, same name, same types: only the metadata changes
+		c.B = hist.Table{DB: "d", Name: "t1"}
+		for i := range c.A.Cols {
+			c.A.Cols[i].Unsigned = false
+			col := gen.ColumnOf(rt, c.A.Cols[i].Type, c.A.Cols[i].Real, copt)
+			col.Name, col.Unsigned = c.A.Cols[i].Name, false
+			c.B.Cols = append(c.B.Cols, col)
+		}
 	case 3: // ALTER: same name and column count, new id, integer columns flip their signedness, names change
 		c.SameTx, c.Between = false, 1
 		iopt := gen.ColumnOpt{Only: []byte{refenc.TTiny, refenc.TShort, refenc.TInt24, refenc.TLong, refenc.TLongLong, refenc.TVarchar}, NoHeavy: true}
@@ -321,6 +368,14 @@ func drawRebind(rt *rapid.T, mode int) *RebindCase {
 	ho := gen.HistOpt{MaxRows: 2, Lim: limits()}
 	c.RowsA = gen.RowsEvent(rt, []hist.Table{c.A}, 0, gen.NewClock(), ho)
 	c.RowsB = gen.RowsEvent(rt, []hist.Table{c.B}, 0, gen.NewClock(), ho)
+	if c.Mode == 4 && len(c.RowsB.Rows) == 0 {
+		// an event without rows attributes nothing: the mismatch only has to be reported when rows follow
+		ho1 := ho
+		ho1.MaxRows = 1
+		for len(c.RowsB.Rows) == 0 {
+			c.RowsB = gen.RowsEvent(rt, []hist.Table{c.B}, 0, gen.NewClock(), ho1)
+		}
+	}
 	return c
 }
 
@@ -374,7 +429,7 @@ func TestC15(t *testing.T) {
 				rt.Fatalf("C15 violation: %v", err)
 			}
 		case 1: // (b) re-announcement / re-binding / count mismatch
-			c := drawRebind(rt, rapid.IntRange(0, 3).Draw(rt, "mode"))
+			c := drawRebind(rt, rapid.IntRange(0, 5).Draw(rt, "mode"))
 			rec.Case(true, c, fmt.Sprintf("rebind/mode=%d", c.Mode), fmt.Sprintf("rebind/sameTx=%v", c.SameTx))
 			rec.Sample(c)
 			journal("C15", "c15rebind", c)
